@@ -469,12 +469,12 @@ def _ord_minmax(eng, st, args, dty, callee, m):
     return z3.If(z3.UGE(a, b), a, b)
 
 
-@summary(r"^<(u8|u16|u32|u64|usize|u128) as (Ord|PartialOrd)>::(cmp|partial_cmp)$", "Ord::cmp on unsigned ints")
+@summary(r"^<(u8|u16|u32|u64|usize|u128) as (std::cmp::)?(Ord|PartialOrd)>::(cmp|partial_cmp)$", "Ord::cmp on unsigned ints")
 def _uint_cmp(eng, st, args, dty, callee, m):
     a = deref(eng, st, args[0])
     b = deref(eng, st, args[1])
     o = ordering(z3.ULT(a, b), a == b)
-    return o if m.group(3) == "cmp" else some(o)
+    return o if m.group(4) == "cmp" else some(o)
 
 
 @summary(r"^std::num::NonZero::<usize>::new$", "NonZero::new")
@@ -727,12 +727,31 @@ def _lock_new(eng, st, args, dty, callee, m):
 
 @summary(r"^std::sync::(Mutex|RwLock)::<.*>::(lock|read|write)$", "std Mutex/RwLock lock: always Ok(guard), guard = reference to the protected value (no poisoning, single thread)")
 def _std_lock(eng, st, args, dty, callee, m):
+    _note_lock(eng, st, args[0], callee)
     return ok(args[0])
 
 
 @summary(r"^parking_lot::lock_api::(RwLock|Mutex)::<.*>::(lock|read|write)$", "parking_lot lock: guard = reference to the protected value (single thread)")
 def _pl_lock(eng, st, args, dty, callee, m):
+    _note_lock(eng, st, args[0], callee)
     return args[0]
+
+
+def _note_lock(eng, st, ref, callee):
+    """record every lock acquisition (lock object, path condition) so that a check can demand a single critical section"""
+    if not hasattr(eng, "lock_acquisitions"):
+        eng.lock_acquisitions = []
+    r = ref
+    n = 0
+    while isinstance(r, VRef) and n < 3:
+        inner = eng.load(st, r)
+        if isinstance(inner, VRef):
+            r = inner
+            n += 1
+        else:
+            break
+    key = (r.root, tuple(str(p) for p in r.path)) if isinstance(r, VRef) else ("?",)
+    eng.lock_acquisitions.append({"lock": key, "pc": st.pc, "callee": callee.split("::<")[0]})
 
 
 @summary(r"^std::sync::atomic::Atomic(Bool|U64|Usize|U32|::<.*>)::load$", "atomic load (single-threaded)")
@@ -821,6 +840,7 @@ def _anyhow(eng, st, args, dty, callee, m):
 def _install_more():
     import summaries_coll  # noqa: F401  (registers its entries)
     import summaries_iter  # noqa: F401
+    import summaries_bytes  # noqa: F401
 
 
 _install_more()
@@ -925,3 +945,51 @@ def _default_ne(eng, st, args, dty, callee, m):
     s2, v = r
     _adopt(st, s2)
     return simp(z3.Not(v))
+
+
+# ------------------------------------------------------------------------------------- async: futures are polled to completion in place
+from values import VCoroutine  # noqa: E402
+
+POLL = EnumInfo("Poll", ["Ready", "Pending"])
+
+
+@summary(r"^(std::pin::)?Pin::<.*>::(new_unchecked|new)$", "Pin::new(_unchecked): wrapper around the reference")
+def _pin_new(eng, st, args, dty, callee, m):
+    return VStruct([args[0]], "Pin")
+
+
+@summary(r"^(std::pin::)?Pin::<.*>::(get_mut|get_unchecked_mut|into_inner|get_ref|into_ref|as_mut)$", "Pin accessors")
+def _pin_get(eng, st, args, dty, callee, m):
+    p = args[0]
+    if isinstance(p, VRef):
+        p = eng.load(st, p)
+    if m.group(2) == "as_mut":
+        return p
+    return p.f[0]
+
+
+@summary(r"^<.* as (std::future::|core::future::)?IntoFuture>::into_future$", "IntoFuture for futures: identity")
+def _into_future(eng, st, args, dty, callee, m):
+    return args[0]
+
+
+@summary(r"^tokio::sync::(Mutex|RwLock)::<.*>::(lock|read|write)$", "tokio lock: a future that is immediately Ready with a guard (= reference to the protected value); single task, never contended")
+def _tokio_lock(eng, st, args, dty, callee, m):
+    _note_lock(eng, st, args[0], callee)
+    return VStruct([args[0]], "ReadyFuture")
+
+
+@summary(r"^<.* as (futures::|std::future::|core::future::)?Future>::poll$", "Future::poll: async fn bodies are executed in place; lock futures are Ready")
+def _future_poll(eng, st, args, dty, callee, m):
+    pin = args[0]
+    target = pin.f[0] if isinstance(pin, VStruct) else pin
+    fut = eng.load(st, target)
+    if isinstance(fut, VStruct) and fut.ty == "ReadyFuture":
+        return VEnum(POLL, bv(0, 8), {0: (fut.f[0],), 1: ()})
+    if isinstance(fut, VCoroutine):
+        body = eng.crate.body(fut.creator + "::{closure#0}")
+        r = eng.run_body(body, [pin, args[1]], st)
+        if r is None:
+            return None
+        return r
+    raise SymError(f"poll of an unmodelled future {fut!r}")
